@@ -133,7 +133,7 @@ func vhSampleRegisters() [][]byte {
 
 //vh:prop C19
 //vh:init cbor
-//vh:param trunc 0 1
+//vh:param trunc 0 2
 func VH_C19_MutatedRegisters() {
 	regs := vhSampleRegisters()
 	r := vhChoose("register", len(regs))
@@ -148,6 +148,13 @@ func VH_C19_MutatedRegisters() {
 	case 1: // truncate
 		t := vhChoose("cut", n)
 		data = data[:t]
+	case 3: // substitute two adjacent bytes by arbitrary values (coordinated edits, e.g. a head and its length)
+		if n < 2 {
+			return
+		}
+		p := vhChoose("pos", n-1)
+		data[p] = vhU8("b")
+		data[p+1] = vhU8("b")
 	case 2: // substitute, then truncate behind the substituted byte
 		p := vhChoose("pos", n)
 		data[p] = vhU8("b")
@@ -252,4 +259,39 @@ type vhBuf struct{ b []byte }
 func (w *vhBuf) Write(p []byte) (int, error) {
 	w.b = append(w.b, p...)
 	return len(p), nil
+}
+
+// Fully symbolic SHORT buffers through the CBOR-bearing decoders (array data
+// slabs, map data slabs incl. collision-group slabs, storable slabs; any
+// version nibble, any flags): every byte string of up to maxlen bytes either
+// decodes or is rejected, without panic, and the accessors of a decoded slab
+// are panic-free. The real fxamacker/cbor stream decoder is executed on the
+// symbolic bytes (no model).
+//
+//vh:prop C19
+//vh:init cbor
+//vh:param datalen 5 6
+//vh:mode bv
+func VH_C19_SymbolicDataBuffer() {
+	maxlen := vhParam("datalen", 6)
+	n := vhChoose("len", maxlen+1)
+	data := make([]byte, n)
+	for i := range data {
+		data[i] = vhU8("b")
+	}
+	vhSetAllocLimit(n + 64)
+	id := vhSlabID(1, 1)
+	if n >= 2 {
+		// slab kind: everything except the index slabs (VH_C19_SymbolicBuffer)
+		kind := data[1] & 0x1f
+		vhAssume(kind != maskArrayMeta)
+		vhAssume(kind != maskMapMeta)
+	}
+	slab, err := DecodeSlab(id, data, vhRealDecMode(), vhDecodeStorableB, vhDecodeTypeInfo)
+	if err == nil {
+		vhAssert(slab != nil, "success returns a slab")
+		vhExerciseSlab(slab)
+		vhReach("decoded")
+	}
+	vhReach("data-buffer-done")
 }
